@@ -48,6 +48,17 @@ CAL_CAP = 60000          # longest history used while calibrating
 MAX_N = 120000
 
 
+def tol_for(kind, params, dt):
+    """Steady-state tolerance [rad] of a filter configuration: a fixed formula, not a measured value.
+    Madgwick's normalised gradient step has length gain*dt whatever the error, so its estimate chatters
+    around the truth with an amplitude of about 2*gain*dt; every other filter settles far below 5e-3."""
+    if kind.startswith('madgwick'):
+        return 4.0 * float(params.get('gain', 0.041)) * dt + 2e-3
+    if kind == 'fkf':
+        return 2e-2
+    return 5e-3
+
+
 def table_key(kind, vi, e0, dt):
     return f'{kind}|{vi}|{e0:g}|{dt:g}'
 
@@ -142,7 +153,7 @@ class Check:
             'true attitude, sensor magnitudes, dip, gyro-noise realisation); each case also runs its e0=0 twin; distinct = distinct '
             'scenario value; non-trivial = e0 > 0 (an initial orientation error actually had to be removed)')
     assumptions = [
-        'budgets (samples to settle) and steady-state tolerances come from c05_table.json, measured once on the repaired tree over 12 seeds per cell; used with x3 (+200 samples) and x10 (floor 2e-3 rad) margins; a regression inside the margin is missed',
+        'budgets (samples to settle) come from c05_table.json, measured once on the repaired tree over 16 seeds per cell and used with a x3 (+300 samples) margin; steady-state tolerances are fixed formulas (5e-3 rad; 4*gain*dt + 2e-3 for Madgwick, whose normalised step chatters; 2e-2 for FKF); a slowdown inside the margin is missed; cells that need more than 60000 samples on the repaired tree are not exercised (listed in the table as slow)',
         'the convention table (which reference directions each filter assumes, and in which direction its quaternion rotates) is an assumption of this oracle; the e0=0 twin of every run is its standing self-check',
         'gains are drawn from a fixed menu per filter (default and two or three non-default sets), dt from {2,10,50} ms',
         'FKF offers no route for an initial orientation: only the e0=0 clause is checked for it',
@@ -190,8 +201,10 @@ class Check:
             ent = (self.table or {}).get(table_key(kind, vi, e0, dt))
             if ent is None:
                 continue
+            if ent.get('status') == 'slow':
+                continue        # converges, but needs more samples than the calibration cap: not exercised
             if ent.get('status') != 'ok':
-                # cells where the filter does not converge on the fixed tree: keep exercising them (known findings)
+                # cells where the filter breaks down on the repaired tree: keep exercising them (known findings)
                 if rnd.random() < 0.15:
                     return self.make_scenario(rnd, kind, vi, e0, dt)
                 continue
@@ -201,11 +214,7 @@ class Check:
 
     @staticmethod
     def budget(ent):
-        return 3 * int(ent['settle']) + 200
-
-    @staticmethod
-    def tol(ent):
-        return max(10.0 * float(ent['steady']), 2e-3)
+        return 3 * int(ent['settle']) + 300
 
     # ------------------------------------------------------------------
     def run(self, scn):
@@ -225,7 +234,7 @@ class Check:
         def v(symptom, step, detail):
             return {'component': f"{scn['kind']}", 'symptom': symptom, 'trigger': trigger, 'step': step, 'detail': detail}
 
-        tol = self.tol(ent0)
+        tol = tol_for(scn['kind'], scn['params'], scn['dt'])
         if ent.get('status') == 'ok':
             budget = self.budget(ent)
             n = scn.get('n') or budget + 200
@@ -287,40 +296,42 @@ CHECK = Check()
 def _cal_cell(args):
     kind, vi, e0, dt, seeds = args
     chk = CHECK
+    params = VARIANTS[kind][vi]
+    tol = tol_for(kind, params, dt)
     worst_settle, worst_steady, status = 0, 0.0, 'ok'
     notes = []
     for s in range(seeds):
         rnd = random.Random(f'C05cal/{kind}/{vi}/{e0}/{dt}/{s}')
         scn = chk.make_scenario(rnd, kind, vi, e0, dt)
-        n = 1500 if e0 == 0 else 4000
+        n = 1500 if e0 == 0 else 3000
         while True:
             errs, e_init, st = error_history(scn, n)
             if st != 'ok':
                 status = st.split('@')[0]
                 notes.append(st)
                 break
+            si = settle_index(errs, tol)
             if e0 == 0:
                 worst_steady = max(worst_steady, float(np.nanmax(errs)))
+                if si > 0:
+                    status = 'leaves-truth'
+                    notes.append(f'max err {float(np.nanmax(errs)):.3g} > tol {tol:.3g}')
                 break
-            # settle relative to a provisional tolerance: 10x the tail error, floor 2e-3 (the real tol is applied at check time)
-            tail = float(np.nanmax(errs[-max(50, n // 10):]))
-            tol = max(10.0 * tail, 2e-3)
-            si = settle_index(errs, 2e-3 if tail < 2e-4 else tol)
-            if si < 0.6 * n and tail < 0.05:
+            if si <= 0.5 * n:       # settled in the first half and stayed there for the second half
                 worst_settle = max(worst_settle, si)
-                worst_steady = max(worst_steady, tail)
+                worst_steady = max(worst_steady, float(np.nanmax(errs[n // 2:])))
                 break
             if n >= CAL_CAP:
-                status = 'no-convergence'
-                notes.append(f'err {errs[-1]:.3g} after {n}')
+                status = 'slow'
+                notes.append(f'err {errs[-1]:.3g} after {n} (tol {tol:.3g})')
                 break
             n = min(CAL_CAP, n * 3)
         if status != 'ok':
             break
-    return table_key(kind, vi, e0, dt), {'settle': worst_settle, 'steady': worst_steady, 'status': status, 'notes': notes[:2]}
+    return table_key(kind, vi, e0, dt), {'settle': worst_settle, 'steady': worst_steady, 'status': status, 'notes': notes[:2], 'tol': tol}
 
 
-def calibrate(seeds=12, workers=16):
+def calibrate(seeds=16, workers=16):
     import concurrent.futures as cf
     import multiprocessing
     jobs = [(k, vi, e0, dt, seeds) for k, vi, e0, dt in CHECK.cells()]
@@ -328,12 +339,6 @@ def calibrate(seeds=12, workers=16):
     with cf.ProcessPoolExecutor(workers, mp_context=multiprocessing.get_context('fork')) as pool:
         for key, ent in pool.map(_cal_cell, jobs, chunksize=1):
             table[key] = ent
-    # steady-state tolerance of a cell = that of its e0=0 sibling, joined with the tails seen from e0>0
-    for key, ent in table.items():
-        kind, vi, e0, dt = key.split('|')
-        sib = table.get(f'{kind}|{vi}|0|{dt}')
-        if sib is not None and ent['status'] == 'ok' and sib['status'] == 'ok':
-            sib['steady'] = max(sib['steady'], ent['steady'])
     with open(TABLE_PATH, 'w') as f:
         json.dump(table, f, indent=0, sort_keys=True)
     return table
